@@ -405,6 +405,8 @@ struct Cfg {
         o << "  CosmicRayFactor: 1\n";
       if (fields_mask & 4)
         o << "  NumberDensity: 1\n";
+      if (fields_mask & 8) // the neutral fraction of a later ion only
+        o << "  NeutralFractionH: 0\n  NeutralFractionHe: 1\n";
     }
     o << "DensityGridWriter:\n  type: " << (writer == 0 ? "AsciiFile" : "Gadget")
       << "\n  prefix: snap_\n  padding: 3\n";
